@@ -142,17 +142,43 @@ def prec_value(expr, prec_tab, op):
 
 
 def variant_tokens(prog, f, S, blks, discr_pat):
-    """for the sub-switch on an operator discriminant inside an arm: variant index -> written token"""
+    """for the sub-switch on an operator discriminant inside an arm: variant index -> written token.
+    Two forms: each case calls write_str(literal); or each case assigns a literal to one local that a later write_str prints
+    (a `symbol()` table, inlined or written as a match expression)."""
     out = {}
-    for b in blks:
+    cand = list(blks) + [b["id"] for b in f.blocks if b["id"] not in set(blks) and not b["cleanup"]]
+    for b in cand:
         t = f.blocks[b]["term"]
         if t["t"] == "switch" and re.fullmatch(discr_pat, S.val(t["discr"])):
+            got = {}
             for v, tgt in t["cases"]:
                 tt = f.blocks[tgt]["term"]
                 if tt["t"] == "call" and (tt.get("callee") or "").endswith("write_str"):
                     m = re.search(r"s:'(.*)'$", S.val(tt["args"][1]))
-                    out[v] = m.group(1) if m else None
+                    got[v] = m.group(1) if m else None
+                    continue
+                # literal assigned in the case block, printed after the join
+                lit = [(s_["lhs"]["l"], s_["rhs"]["ops"][0]["str"]) for s_ in f.blocks[tgt]["stmts"]
+                       if s_["rhs"]["rv"] == "use" and not s_["lhs"]["p"] and s_["rhs"]["ops"][0].get("k") == "const" and "str" in s_["rhs"]["ops"][0]]
+                if len(lit) == 1 and _printed_later(prog, f, tgt, lit[0][0]):
+                    got[v] = lit[0][1]
+            if got and not out:
+                out = got
     return out
+
+
+def _printed_later(prog, f, blk, local):
+    """the local assigned in blk reaches the string argument of a write_str call reachable from blk"""
+    from ..flow import derived_locals
+    from .. import cfg as _cfg
+    der = derived_locals(f, {local})
+    for b in _cfg.reachable(f, blk):
+        t = f.blocks[b]["term"]
+        if t["t"] == "call" and (t.get("callee") or "").endswith("write_str") and len(t["args"]) > 1:
+            a = t["args"][1]
+            if a.get("pl") and a["pl"]["l"] in der:
+                return True
+    return False
 
 
 def run_c19(ctx):
